@@ -7,9 +7,9 @@ REGS = ['x0', 'x1', 'x2', 'x5', 'x8', 'x9', 'x10', 'x15', 'x16', 'x31', 'zero', 
         'a0', 'a1', 'a5', 'a6', 't6', 'fp', 'gp', 'tp']
 CREGS = ['x8', 'x9', 'x10', 'x15', 's0', 's1', 'a0', 'a5']
 NZREGS = [r for r in REGS if r not in ('x0', 'zero')]
-CODE_LABELS = ['la', 'lb', 'lc', 'ld', 'le']
+CODE_LABELS = ['la', 'lb', 'lc', 'ld', 'le', 'fade', 'cafe']
 DATA_LABELS = ['dat1', 'dat2', 'dat3']
-CONSTS = ['KA', 'KB', 'KC', 'KD']
+CONSTS = ['KA', 'KB', 'KC', 'KD', 'ADC0', 'BEEF']
 BIGCONSTS = ['BIG1', 'BIG2']
 REGCONSTS = ['RX', 'RY']
 
@@ -300,8 +300,12 @@ def gen_tree(r, max_depth=3, allow_bytes=False, nfiles=None):
                 line = 'include %s' % w
             elif style < 0.5:
                 line = 'include %s%s' % (w, r.choice(('  ', '\t', ' \t ')))
-            elif style < 0.7:
+            elif style < 0.62:
                 line = 'include "%s"' % w
+            elif style < 0.66:
+                line = 'include "%s"%s' % (w, r.choice((' ', '\t', '  ')))
+            elif style < 0.7:
+                line = 'include "%s" # %s' % (w, posixpath.basename(w))
             elif style < 0.8:
                 line = "include '%s'" % w
             elif style < 0.9:
@@ -529,6 +533,8 @@ FAULTS = {
     'missing-include': ['include nofile.asm', 'include "missing dir/nofile.asm"', 'include sub/nofile.asm', 'include ../nofile.asm',
                         'include_bytes nofile.bin', 'include nofile.asm # comment', 'include', 'include a b', 'include_bytes'],
     'duplicate-label': ['{dup}:'],
+    # position-dependent: the same text is valid near its target and out of range 5000 bytes further down
+    'far-branch': ['beq t0, zero, farlbl', 'bne t1, t2, farlbl', 'bnez s0, farlbl', 'bgt t0, t1, farlbl', 'beq x8, x0, farlbl', 'bltu a0, a1, farlbl'],
     'invalid-syntax': ['bogus t0, t1', 'addi', '12345', 'foo bar baz', ': :', 'x = = 3', '=', 'K ='],
 }
 DATA_FAULT_PREFIX = ('db', 'dh', 'dw', 'dd', 'bytes', 'shorts', 'ints', 'longs', 'longlongs', 'pack', 'align')
@@ -538,6 +544,17 @@ def plant_fault(r, tree, cls, line_text=None, target_file=None, where=None):
     """Insert one faulty line into a file of the tree.  Returns (file, 1-based line number, text)."""
     labels = tree['symbols']['labels'] or ['la']
     text = line_text or r.choice(FAULTS[cls])
+    if cls == 'far-branch':
+        path = target_file or tree['main']
+        crlf = tree['files'][path].split('\n')[0].endswith('\r')
+        body = tree['files'][path].replace('\r\n', '\n').rstrip('\n').split('\n')
+        if body == ['']:
+            body = []
+        line = '    ' + text
+        body = ['farlbl:', line] + body + ['align 4', 'include_bytes farpad.bin', 'align 4', line]
+        tree['files'][path] = ('\r\n' if crlf else '\n').join(body) + ('\r\n' if crlf else '\n')
+        tree.setdefault('bins', {})[posixpath.dirname(path) + '/farpad.bin'] = {'rand': [r.randrange(1 << 30), 5000]}
+        return path, len(body), line
     aliases = tree['symbols'].get('regconsts') or []
     text = text.replace('{label}', r.choice(labels)).replace('{dup}', r.choice(labels)).replace('{r}', r.choice(aliases) if aliases else 't0')
     paths = sorted(tree['files'])
